@@ -89,6 +89,22 @@ def _compositions(total, parts):
             yield (first,) + rest
 
 
+def size(s):
+    """Node count of one statement shape."""
+    tag = s[0]
+    if tag in ("A", "E", "R", "B", "L"):
+        return 1
+    if tag in ("BL", "SH"):
+        return 1 + sum(size(x) for x in s[1])
+    if tag == "I":
+        return 1 + sum(size(x) for x in s[2])
+    if tag == "IE":
+        return 1 + sum(size(x) for x in s[2]) + sum(size(x) for x in s[3])
+    if tag == "SW":
+        return 1 + sum(1 + sum(size(x) for x in b) for _l, b in s[1])
+    raise KeyError(tag)
+
+
 def skeletons(max_nodes, conds=("c", "a", "t")):
     """Yields statement lists with 1..max_nodes nodes, simplest first."""
     cache = {}
